@@ -331,6 +331,64 @@ var fpProgs = map[string][]sched.Op{
 	"U21C": {{Op: "update", F: "f2"}, {Op: "update", F: "f1"}, {Op: "commit", F: "-"}},
 }
 
+var fpProcs = []string{"p1", "p2", "p3"}
+var fpFiles = []string{"f1", "f2"}
+
+func fpPad(ts []*fpTrace) {
+	for _, t := range ts {
+		t.Init = padInit(t.Init, fpProcs, fpFiles)
+		for i := range t.Events {
+			for _, f := range fpFiles {
+				if _, ok := t.Events[i].Dir[f]; !ok {
+					t.Events[i].Dir[f] = sched.DirF{Ver: -1}
+				}
+			}
+		}
+	}
+}
+
+func fpPairInit(pr [2]string) fpInit {
+	return fpInit{Progs: map[string][]sched.Op{"p1": fpProgs[pr[0]], "p2": fpProgs[pr[1]]}, Exists: map[string]bool{"f1": true, "f2": !strings.HasPrefix(pr[0], "C")}}
+}
+
+func rep(l []string, p string, n int) []string {
+	for k := 0; k < n; k++ {
+		l = append(l, p)
+	}
+	return l
+}
+
+// fpPreempt: for every pair of programs, p1 runs i steps (every i), then p2 as far as it gets, then both finish.
+func fpPreempt(r *core.Run, pairs [][2]string) []*fpTrace {
+	var out []*fpTrace
+	for _, pr := range pairs {
+		in := fpPairInit(pr)
+		n1 := soloLen(r, in, "p1")
+		for i := 0; i <= n1; i++ {
+			out = append(out, runSchedule(r, in, rep(rep(nil, "p1", i), "p2", 80), "preempt"))
+			r.Count("preemption_schedules", 1)
+		}
+	}
+	return out
+}
+
+// fpPreempt2: p1 runs i steps, p2 runs j steps, p1 runs as far as it gets, then both finish.
+func fpPreempt2(r *core.Run, pairs [][2]string, stride int) []*fpTrace {
+	var out []*fpTrace
+	for _, pr := range pairs {
+		in := fpPairInit(pr)
+		n1 := soloLen(r, in, "p1")
+		n2 := soloLen(r, in, "p2")
+		for i := 0; i <= n1; i++ {
+			for j := 1; j <= n2; j += stride {
+				out = append(out, runSchedule(r, in, rep(rep(rep(nil, "p1", i), "p2", j), "p1", 80), "preempt2"))
+				r.Count("preemption_schedules", 1)
+			}
+		}
+	}
+	return out
+}
+
 func soloLen(r *core.Run, in fpInit, p string) int {
 	one := fpInit{Progs: map[string][]sched.Op{p: in.Progs[p]}, Exists: in.Exists}
 	t := runSchedule(r, one, nil, "solo")
@@ -439,22 +497,7 @@ func runC09(r *core.Run) {
 	if !r.Thorough {
 		pairs = pairs[:10]
 	}
-	var batch []*fpTrace
-	for _, pr := range pairs {
-		in := fpInit{Progs: map[string][]sched.Op{"p1": fpProgs[pr[0]], "p2": fpProgs[pr[1]]}, Exists: map[string]bool{"f1": true, "f2": !strings.HasPrefix(pr[0], "C")}}
-		n1 := soloLen(r, in, "p1")
-		for i := 0; i <= n1; i++ {
-			var sc []string
-			for k := 0; k < i; k++ {
-				sc = append(sc, "p1")
-			}
-			for k := 0; k < 80; k++ {
-				sc = append(sc, "p2")
-			}
-			batch = append(batch, runSchedule(r, in, sc, "preempt"))
-			r.Count("preemption_schedules", 1)
-		}
-	}
+	batch := fpPreempt(r, pairs)
 	if !judge(batch) {
 		finishEvidence(0, "", 0, "")
 		return
@@ -500,27 +543,9 @@ func runC09(r *core.Run) {
 	// ---- 4. two preemptions (thorough) and seeded random schedules ----------
 	batch = nil
 	if r.Thorough {
-		for _, pr := range pairs {
-			in := fpInit{Progs: map[string][]sched.Op{"p1": fpProgs[pr[0]], "p2": fpProgs[pr[1]]}, Exists: map[string]bool{"f1": true, "f2": !strings.HasPrefix(pr[0], "C")}}
-			n1 := soloLen(r, in, "p1")
-			n2 := soloLen(r, in, "p2")
-			for i := 0; i <= n1; i++ {
-				for j := 1; j <= n2; j += 2 {
-					var sc []string
-					for k := 0; k < i; k++ {
-						sc = append(sc, "p1")
-					}
-					for k := 0; k < j; k++ {
-						sc = append(sc, "p2")
-					}
-					for k := 0; k < 80; k++ {
-						sc = append(sc, "p1")
-					}
-					batch = append(batch, runSchedule(r, in, sc, "preempt2"))
-					r.Count("preemption_schedules", 1)
-				}
-			}
-		}
+		batch = append(batch, fpPreempt2(r, pairs, 2)...)
+	} else {
+		batch = append(batch, fpPreempt2(r, [][2]string{{"UC", "R"}, {"UC", "UC"}}, 3)...)
 	}
 	nrand := 300
 	if r.Thorough {
